@@ -401,7 +401,7 @@ fn orders(c: &Cfg, tier: Tier) -> Vec<Vec<Doc>> {
     }
     let mut out: Vec<Vec<Doc>> = vec![];
     // all permutations of up to `k` distinct documents
-    let k = tier.pick(2usize, 3usize);
+    let k = tier.pick(3usize, 4usize);
     fn rec(cur: &mut Vec<Doc>, docs: &[Doc], k: usize, out: &mut Vec<Vec<Doc>>) {
         if !cur.is_empty() {
             out.push(cur.clone());
@@ -453,7 +453,7 @@ pub fn run(tier: Tier) -> i32 {
             rep.violation(x);
         }
     }
-    l.bound = format!("64 project trees (registry dep, path dep, transitive dep, direct dep on the transitive one, nested package root, module in src/ vs test/; plus nested module directories, equal module names in package and dependency, a free-standing file) x all open orders of <= {} distinct documents out of 5; real directories, real loader via didOpen on the real router", tier.pick(2, 3));
+    l.bound = format!("64 project trees (registry dep, path dep, transitive dep, direct dep on the transitive one, nested package root, module in src/ vs test/; plus nested module directories, equal module names in package and dependency, a free-standing file) x all open orders of <= {} distinct documents out of 5; real directories, real loader via didOpen on the real router", tier.pick(3, 4));
     rep.layer(l);
     naming_layer(&mut rep, &root);
     rep.distinct_nontrivial = jobs.len() as u64 + name_cfgs().len() as u64;
